@@ -55,29 +55,49 @@ func docxStyleFor(p *lpara, need map[string]bool) (style string, outline int) {
 			style = p.Fam // its ancestors are added by family.closeNeed
 		case "outline":
 			outline = p.Level - 1
+			style = docxPlainStyle(p.Plain, need) // the body style the paragraph is written in, if any
 		}
 	case "p":
 		if p.Fam != "" {
 			style = p.Fam // a (cell) paragraph written in a style of the family
 		}
-		switch p.Via {
-		case "quote":
-			style = "Quote"
-		case "boldsmall":
-			style = "BoldSmall"
-		case "bigbold":
-			style = "BigBold"
-		case "cycplain":
-			style = "CycPlainA"
-			need["CycPlainB"] = true
+		if s := docxPlainStyle(p.Via, need); s != "" {
+			style = s
+		}
+		if p.Out9 {
+			outline = 9 // "body text": no level
 		}
 	case "li":
 		style = "ListParagraph"
 	}
-	if style != "" {
+	if style != "" && style != undefStyleDocx {
 		need[style] = true
 	}
 	return
+}
+
+// undefStyleDocx: a style id the styles part never defines (the id a German Word gives
+// "Body Text"); a paragraph that names it is formatted like the default style.
+const undefStyleDocx = "Textkrper"
+
+// docxPlainStyle: the style id of a non-heading paragraph style (a p.Via value).
+func docxPlainStyle(via string, need map[string]bool) string {
+	switch via {
+	case "quote":
+		return "Quote"
+	case "boldsmall":
+		return "BoldSmall"
+	case "bigbold":
+		return "BigBold"
+	case "cycplain":
+		need["CycPlainB"] = true
+		return "CycPlainA"
+	case "undef":
+		return undefStyleDocx
+	case "normal":
+		return "Normal"
+	}
+	return ""
 }
 
 func digitsSuffix(id string) (string, int) {
@@ -266,6 +286,10 @@ func docxPara(p *lpara, need map[string]bool) *Node {
 		default:
 			ppr.Add(E("w:numPr", wval("w:ilvl", rawAttr(p.RawLevel)), wval("w:numId", strconv.Itoa(p.NumID))))
 		}
+	}
+	if p.Jc != "" {
+		// direct formatting of this paragraph (CT_PPrBase order: spacing, ind, jc, outlineLvl)
+		ppr.Add(E("w:spacing").A("w:before", "120").A("w:after", "240"), E("w:ind").A("w:left", "360").A("w:hanging", "180"), wval("w:jc", p.Jc))
 	}
 	if outline >= 0 {
 		ppr.Add(wval("w:outlineLvl", strconv.Itoa(outline)))
